@@ -617,6 +617,9 @@ func checkStaticValue(inputType reflect.Type, path FieldPath, value any) error {
 	if err != nil {
 		return err
 	}
+	if err = checkSettableTargetPath(path, inputType); err != nil {
+		return err
+	}
 	if intermediateInterface {
 		return nil
 	}
